@@ -43,6 +43,7 @@ import (
 	"github.com/markusmobius/go-domdistiller/internal/domutil"
 	"github.com/markusmobius/go-domdistiller/internal/logutil"
 	"github.com/markusmobius/go-domdistiller/internal/stringutil"
+	"github.com/markusmobius/go-domdistiller/vtrace"
 	"golang.org/x/net/html"
 )
 
@@ -372,6 +373,10 @@ func (pnf *PrevNextFinder) FindOutlink(root *html.Node, pageURL *nurl.URL, findN
 			}
 		}
 
+		if vtrace.On {
+			vtrace.Emit("PNScore", "next", findNext, "href", linkObj.linkHref, "text", linkObj.linkText, "score", linkObj.score)
+		}
+
 		// Add final score to candidates
 		candidates = append(candidates, linkObj)
 	} // loop for all links
@@ -396,6 +401,10 @@ func (pnf *PrevNextFinder) FindOutlink(root *html.Node, pageURL *nurl.URL, findN
 		pnf.appendDebugStrForLink(allLinks[topPage.linkIndex], fmt.Sprintf(
 			"found: score %d, text=[%s] %s",
 			topPage.score, topPage.linkText, topPage.linkHref))
+	}
+
+	if vtrace.On {
+		vtrace.Emit("PNChoice", "next", findNext, "href", pagingHref)
 	}
 
 	pnf.printDebugInfo(findNext, pagingHref, allLinks)
